@@ -1,0 +1,29 @@
+//go:build verif
+
+package ledger
+
+import "github.com/formancehq/go-libs/v5/pkg/query"
+
+// Exported aliases of the pure address-filter helpers, compiled only with the
+// `verif` build tag: the runtime-verification harness evaluates the SQL
+// fragments they emit against an independent address matcher.
+
+func VerifFilterAccountAddress(address, key string) string {
+	return filterAccountAddress(address, key)
+}
+
+func VerifFilterAccountAddressOnTransactions(address string, source, destination bool) string {
+	return filterAccountAddressOnTransactions(address, source, destination)
+}
+
+func VerifIsPartialAddress(address string) bool { return isPartialAddress(address) }
+
+func VerifBuildAddressFilterForLateral(addresses []string) string {
+	return buildAddressFilterForLateral(addresses)
+}
+
+func VerifCanPushAddressFilterToLateral(builder query.Builder) bool {
+	return canPushAddressFilterToLateral(builder)
+}
+
+func VerifExplodeAddress(address string) map[string]any { return explodeAddress(address) }
